@@ -376,6 +376,7 @@ def run_lp(sc, prefer=None, xcheck=None, wall_cap=None, keep_sets=True):
     d = world.make_run_dir()
     old_tmp = os.environ.get('TMPDIR')
     os.environ['TMPDIR'] = d
+    old_cwd = None
     try:
         text = sc.get('inst_text')
         if text is None:
@@ -387,6 +388,10 @@ def run_lp(sc, prefer=None, xcheck=None, wall_cap=None, keep_sets=True):
             with open(path, 'w') as f:
                 f.write(text)
         world.spy_start(d, _spy_sink(tr, log))
+        if sc.get('relpath'):
+            old_cwd = os.getcwd()
+            os.chdir(d)
+            path = fname
         with _Alarm(wall_cap, tr):
             try:
                 solver_session(
@@ -410,6 +415,8 @@ def run_lp(sc, prefer=None, xcheck=None, wall_cap=None, keep_sets=True):
                 tr.timeout = True
     finally:
         world.spy_stop()
+        if old_cwd is not None:
+            os.chdir(old_cwd)
         if old_tmp is None:
             os.environ.pop('TMPDIR', None)
         else:
